@@ -301,8 +301,8 @@ func TestC04(t *testing.T) {
 	total := len(behs) * len(profs)
 	behav.Parallel(total, func(i int) {
 		bi, pi := i/len(profs), i%len(profs)
-		if profs[pi].inner == "manykeys" && behs[bi][0].Str("op") == "Import" && bi%40 != int(seed)%40 {
-			return // 2^16-container imports are slow: a seeded 1/40 sample of the import behaviours
+		if profs[pi].inner == "manykeys" && behs[bi][0].Str("op") == "Import" && bi%120 != int(seed)%120 {
+			return // 2^16-container imports are slow: a seeded 1/120 sample of the import behaviours
 		}
 		ps := profs[pi]
 		if !behav.Thorough() && pi == 2 {
